@@ -169,6 +169,7 @@ type Machine struct {
 	preemptAt   []string
 	timersOff   bool
 	timersWait  bool
+	tickerFires int
 	xcheckEvery int
 	xcheckMax   int
 	xcheckDir   string
